@@ -85,6 +85,12 @@ Section WithIp.
     | _ => false
     end.
 
+  (* chooseProxyDialer: a flow that is routed again (or arrives marked "route in the control plane") gets
+     the outbound the routing rules name for it; the dial target is then decided for THAT outbound *)
+  Definition spec_final_outbound (m : dial_mode) (reserved : bool) (outbound route_to : N)
+             (c : sniff_class) (k : knowledge) : N :=
+    if spec_reroute m reserved c k || (outbound =? outbound_control_plane_routing) then route_to else outbound.
+
   (* the endpoint the target must denote: (host, port) *)
   Definition spec_endpoint (m : dial_mode) (reserved : bool) (dst_ip : str) (dst_port : N)
              (c : sniff_class) (k : knowledge) : str * str :=
